@@ -66,8 +66,8 @@ func main() {
 	}
 	run.Mandatory(mandatory...)
 
-	nHist := run.N(2000, 80000)
-	nForged := run.N(32, 1280)
+	nHist := run.N(2000, 60000)
+	nForged := run.N(32, 960)
 	if rc := run.ReplayCase(); rc >= 0 {
 		// a replay runs one case only: the mandatory scenarios of a whole run cannot all be seen
 		if rc >= forgedBase {
